@@ -319,24 +319,27 @@ def check(world, model, model2, op, obs, pre):
 
 
 def describe(tier):
-    return {"formats": FORMATS, "precisions": precisions(tier), "scenarios": ["s1", "s2"], "max_writers": 2 if tier == "quick" else 3, "depth": 4 if tier == "quick" else 5,
+    return {"formats": FORMATS, "precisions": precisions(tier), "scenarios": ["s1", "s2"], "max_writers_x_depth": [[2, 4]] if tier == "quick" else [[3, 4], [2, 5]],
             "exhaustive": True}
 
 
 def units(tier):
-    en = make_enabled(tier, 2 if tier == "quick" else 3)
+    # quick: up to 2 writers, histories of length 4.  thorough: two complete enumerations - up to 3 writers with histories of length 4, and up to
+    # 2 writers with histories of length 5 (3 writers at length 5 is a space of > 10^8 transitions and was not affordable: stated, not capped silently)
     u = []
-    _, m0 = start()
-    for op1 in en(m0):
-        m1 = {"writers": [[op1[1], op1[2], op1[3], 0, 0]], "nfiles": 0, "file_fmts": []}
-        for op2 in en(m1):
-            u.append({"prefix": [op1, op2], "depth": 4 if tier == "quick" else 5})
+    for mw, depth in ([(2, 4)] if tier == "quick" else [(3, 4), (2, 5)]):
+        en = make_enabled(tier, mw)
+        _, m0 = start()
+        for op1 in en(m0):
+            m1 = {"writers": [[op1[1], 4 if op1[2] is None else op1[2], op1[3], 0, 0]], "nfiles": 0, "file_fmts": []}
+            for op2 in en(m1):
+                u.append({"prefix": [op1, op2], "depth": depth, "max_writers": mw})
     return u
 
 
 def run_unit(unit, tier):
     res = Result()
-    en = make_enabled(tier, 2 if tier == "quick" else 3)
+    en = make_enabled(tier, unit.get("max_writers", 2 if tier == "quick" else 3))
     worlds = []
 
     def st():
